@@ -87,6 +87,14 @@ func genTxbRequestFields(r *rng, el J, seenTs *[]string) {
 			el["tz"] = r.pick2([]int{-720, -90, 60, 330, 840})
 		}
 	}
+	if cr := r.fork(); cr.p(18) { // NUL / control / invisible characters in reference, metadata keys and values (see txControlStrings)
+		m, _ := el["meta"].(J)
+		if m == nil && cr.p(50) {
+			m = J{}
+			el["meta"] = m
+		}
+		txControlStrings(cr, el, m)
+	}
 }
 
 func genTxBulkCase(r *rng) J {
